@@ -25,10 +25,12 @@ def cases(run, adversarial=False, count=None):
         div0 = [0] * n if fresh else [rng.choice([0, 0, 1, 5, 200, 255]) for _ in range(n)]
         ops = cu.gen_history(rng, n, adversarial, rng.randrange(3, 26 if not run.thorough else 61))
         pad = rng.choice([0, 0, 1, 7, 16, 255])
-        got = cu.run_history(n, divsup, acksup, en0, div0, ops, rxpadding=pad, streaming=not fresh and rng.random() < 0.5,
-                             high=rng.random() < 0.5)
+        strm, hi = (not fresh and rng.random() < 0.5), rng.random() < 0.5
+        got = cu.run_history(n, divsup, acksup, en0, div0, ops, rxpadding=pad, streaming=strm, high=hi)
         out.append(dict(cmd="config %d %d %s %s %s" % (divsup, acksup, cu.bools(en0), cu.ints(div0), ";".join(ops)),
                         impl=got, oracle=None, kind="history-n%d-div%d-ack%d" % (min(n, 13), divsup, acksup),
+                        rerun=(lambda a=(n, divsup, acksup, list(en0), list(div0), list(ops)), p=pad, st=strm, hi=hi:
+                               cu.run_history(*a, rxpadding=p, streaming=st, high=hi, scale=0.08)),
                         key=(n, divsup, acksup, tuple(en0), tuple(div0), tuple(ops)),
                         nontrivial=any(o.startswith("W") for o in ops)))
     return out
